@@ -623,18 +623,19 @@ def run(chk):
 
     chk.notes += sorted("design: " + n for n in design_notes)
 
-    # ---- an observation that is reported but is not a clause of the property as quantified (float cut-offs) ---------------
-    try:
-        from qats import TimeSeries
-        t = np.arange(2001) * 0.1
-        ts = TimeSeries("c12", t, np.sin(2 * np.pi * 0.5 * t))
-        _, e_get = call(ts.get, filterargs=("lp", 1))
-        _, e_flt = call(ts.filter, "lp", 1)
-        if e_get is None and e_flt is not None:
-            chk.notes.append("observation (not counted): TimeSeries.filter('lp', 1) with an *integer* cut-off raises %s while "
-                             "get(filterargs=('lp', 1)) filters" % e_flt)
-    except Exception:
-        pass
+    # ---- the series-level filter call equals retrieval with the same filter arguments, whatever numeric type the cut-off has --------
+    from qats import TimeSeries
+    t = np.arange(2001) * 0.1
+    ts = TimeSeries("c12", t, np.sin(2 * np.pi * 0.5 * t))
+    for ftype, fr in (("lp", 1), ("hp", np.float32(0.5)), ("bp", [0.25, 2]), ("bs", (1, 2.0))):
+        chk.count("filter-arg-types")
+        fa = (ftype,) + (tuple(fr) if isinstance(fr, (list, tuple)) else (fr,))
+        r_get, e_get = call(ts.get, filterargs=fa)
+        r_flt, e_flt = call(ts.filter, ftype, fr)
+        ok = e_get is None and e_flt is None and np.array_equal(r_get[1], r_flt[1])
+        if not ok:
+            chk.fail("the series-level filter call equals retrieval with the same filter arguments (integer / numpy / list cut-offs)",
+                     dict(filtertype=ftype, freq=str(fr), kind="arg-types"), "equal arrays", "get: %s, filter: %s" % (e_get, e_flt))
 
 
 # ----------------------------------------------------------------------------------------------------------------------
